@@ -3,6 +3,8 @@
 # builds (warms the Go build cache for) the harness binaries.
 set -euo pipefail
 export GOFLAGS=-mod=mod GOPROXY=off GOSUMDB=off GOTOOLCHAIN=local
+mkdir -p /verif/build /verif/bin /verif/evidence
 /verif/scripts/mkoverlay.sh
 /verif/scripts/build.sh
+/verif/scripts/build.sh race
 echo setup done
